@@ -328,6 +328,15 @@ def run_history(ops, props=None):
                     out.append(('C04', f'{where}: AgentNotFoundError for a live id / non-strict lookup'))
             if monitor.fingerprint((env.agents, m.systems.component_pools)) != before:
                 out.append(('C04', f'{where}: lookup changed the environment'))
+        elif kind == 'cpos':
+            # a class component of the exact type PositionComponent on the agents' class: an instance's own position
+            # (and every other own component) must still be the one that counts
+            from ECAgent.Environments import PositionComponent
+            cls = w.K[op[1]]
+            if PositionComponent not in cls:
+                pc_ = PositionComponent(None, m, 9, 9, 9)
+                cls.add_class_component(pc_)
+                w.ccomps[op[1]]['pos'] = pc_
         elif kind == 'attachpos':
             from ECAgent.Environments import PositionComponent
             o = w.objs.get(op[1])
@@ -488,7 +497,7 @@ def run_history(ops, props=None):
         check_listings(w, out, where)
         check_classes(w, out, where)
         check_positions(w, out, where)
-        if len(out) > 6:
+        if len([o_ for o_ in out if not props or o_[0] in props]) > 6:
             break
     return out
 
@@ -619,7 +628,8 @@ def spatial_histories(prop):
         fl = kind == 'space'
         half = 0.5 if fl else 0
         for wrap in (False, True):
-            ops = [('world', kind, W, H, D, wrap), _mk('a', 0, None, (0,)), _mk('b', 0, None, (4,)), _mk('c'), _mk('a#2'),
+            ops = [('world', kind, W, H, D, wrap)] + ([('cpos', 0)] if wrap else []) + [
+                   _mk('a', 0, None, (0,)), _mk('b', 0, None, (4,)), _mk('c'), _mk('a#2'),
                    ('add', 'a', 0, 0, 0), ('add', 'a#2', half, 0, 0), ('add', 'b', (W - (0 if fl else 1)) if W else 0, (H - (0 if fl else 1)) if H else 0,
                                            (D - (0 if fl else 1)) if D else 0), ('add', 'c', half, 0, 0)]
             for d in [(1, 0, 0), (0, 1, 0), (0, 0, 1), (-1, -1, -1), (11, -9, 23), (-17, 40, -3), (W, H, D),
